@@ -1,7 +1,10 @@
 (* C16 — HTTPHeaderDict behaves as a case-insensitive, order-preserving multimap.
-   Only theorem statements closed by `exact`, each followed by Print Assumptions. *)
-From Coq Require Import List NArith Bool.
-From V Require Import lib.PyStr model.HeaderDict gen.Gen_Coll.
+   Only statements, each closed by `exact` and followed by Print Assumptions.
+   Every theorem is for ALL operation sequences (any length, any number of
+   objects) and for EVERY lower-casing function `lower`. *)
+From Coq Require Import String List NArith Bool.
+From V Require Import lib.PyStr model.HeaderDict model.HeaderSpec gen.Gen_Coll
+  proofs.HeaderDict_inv proofs.HeaderDict_refine proofs.HeaderDict_step.
 Import ListNotations.
 
 (* anchor: the header list removed by _prepare_for_method_change, as found in the source *)
@@ -9,3 +12,67 @@ Theorem gen_content_specific_headers_pinned :
   Gen_Coll.content_specific_headers = Some HeaderDict.content_specific_headers.
 Proof. reflexivity. Qed.
 Print Assumptions gen_content_specific_headers_pinned.
+
+(* representation invariant in every reachable store: keys unique, stored key =
+   lower(stored name), at least one value per entry *)
+Theorem hd_inv : forall lower ops,
+  Forall (Inv lower) (run_ops lower ops [[]]).
+Proof.
+  intros lower ops. apply run_ops_inv. constructor; [apply Inv_nil | constructor].
+Qed.
+Print Assumptions hd_inv.
+
+(* refinement: running any operation sequence on the model and abstracting to
+   flat header lines equals running the reference multimap; every operation
+   returns the reference's result (in particular never an internal error) *)
+Theorem hd_refines_multimap : forall lower ops,
+  sp_run lower ops [[]] =
+  (map abs (fst (run_trace lower ops [[]])), snd (run_trace lower ops [[]])).
+Proof.
+  intros lower ops. apply (run_refines lower ops [[]]).
+  constructor; [apply Inv_nil | constructor].
+Qed.
+Print Assumptions hd_refines_multimap.
+
+(* every public observation of an object is the reference's observation of
+   its abstract state: per-line and merged iteration, names, len, lookup under
+   any casing, membership, getlist *)
+Theorem hd_observations_refine : forall lower d,
+  Inv lower d ->
+  iteritems lower d = Some (abs d) /\
+  itermerged lower d = Some (sp_merged lower (abs d)) /\
+  names d = sp_names lower (abs d) /\
+  length d = sp_len lower (abs d) /\
+  (forall k, getitem lower k d = sp_get lower k (abs d)) /\
+  (forall k, contains lower k d = sp_has lower k (abs d)) /\
+  (forall k, getlist lower k d = sp_values lower k (abs d)).
+Proof. exact observations_refine. Qed.
+Print Assumptions hd_observations_refine.
+
+Theorem hd_eq_refines : forall lower a b,
+  Inv lower a -> Inv lower b -> hd_eq lower a b = Some (sp_eq lower (abs a) (abs b)).
+Proof. exact eq_refines. Qed.
+Print Assumptions hd_eq_refines.
+
+(* independence: an operation changes no object other than the one it is
+   applied to, object-creating operations change none, and a copy is equal to
+   its source at the moment of copying *)
+Theorem hd_copy_independent : forall lower st p o',
+  o' < length st -> target p <> Some o' ->
+  get_obj (fst (step lower st p)) o' = get_obj st o'.
+Proof. exact step_frame. Qed.
+Print Assumptions hd_copy_independent.
+
+Theorem hd_copy_equal : forall lower d, Inv lower d -> copy lower d = d.
+Proof. exact copy_id. Qed.
+Print Assumptions hd_copy_equal.
+
+(* non-vacuity: a concrete reachable non-trivial store meets the hypotheses *)
+Example hd_nonvacuous :
+  let st := run_ops ascii_lower
+              [OAdd 0 (S!"Set-Cookie") (S!"a") false; OAdd 0 (S!"set-cookie") (S!"b") false;
+               OSet 0 (S!"X") (S!"1"); OCopy 0; OAdd 1 (S!"x") (S!"2") true] [[]] in
+  length st = 2 /\ abs (get_obj st 1) =
+    [(S!"Set-Cookie", S!"a"); (S!"Set-Cookie", S!"b"); (S!"X", S!"1, 2")]
+  /\ abs (get_obj st 0) = [(S!"Set-Cookie", S!"a"); (S!"Set-Cookie", S!"b"); (S!"X", S!"1")].
+Proof. vm_compute. repeat split. Qed.
